@@ -39,6 +39,7 @@ func smpRestarts(c *Ctx) {
 						from, to = to, from
 					}
 					start := len(s.calls)
+					smpBefore := otr3.VerifSnapshot(s.ps[who].c).SMPState
 					switch variant {
 					case 0:
 						s.StartSMP(who, "", sec)
@@ -48,6 +49,13 @@ func smpRestarts(c *Ctx) {
 						s.ps[who].rnd.fail = 1 + c.R.Intn(4)
 						s.StartSMP(who, "", sec)
 						s.ps[who].rnd.fail = 0
+					}
+					// a start that is refused (error returned, nothing sent) leaves the SMP machine where it was: otherwise the
+					// next message of the peer meets a state the user knows nothing of
+					if variant != 0 && len(s.calls) > start && s.calls[start].err && len(s.calls[start].outs) == 0 {
+						if after := otr3.VerifSnapshot(s.ps[who].c).SMPState; after != smpBefore && !(smpBefore == 0 && after == 1) {
+							c.Violate("smp-refused-start-moves-state", trig, fmt.Sprintf("StartAuthenticate returned an error and sent nothing, but the SMP state went from %d to %d", smpBefore, after), s.trace)
+						}
 					}
 					s.Pump(1, 2, 12)
 					other := 3 - who
@@ -189,6 +197,70 @@ func smpAfterKeyListChange(c *Ctx) {
 					c.Violate("panic", "smp-key-list:"+trig, "panic in an SMP run after the key list changed", s.trace)
 				} else if !(has(evA, 6) && has(evB, 6)) {
 					c.Violate("honest-smp-failed", trig, fmt.Sprintf("after SetOurKeys put other keys in front of the session's key an honest run with equal secrets did not succeed (events %v / %v)", evA, evB), s.trace)
+				}
+			}
+		}
+	}
+}
+
+// records behind a disconnect record: the disconnect ends the session the data message belongs to (keys wiped, version
+// forgotten), so whatever follows it in the same TLV list - an SMP message, an abort, an extra-key request - has no
+// session to be processed in: nothing may crash, nothing of it may take effect, the receiver ends up finished, and a new
+// session works.  The forms the machine can express (abort, extra key) are scenarios for the correspondence as well.
+func tlvsBehindDisconnect(c *Ctx) {
+	smp1 := []byte{0, 0, 0, 6}
+	for i := 0; i < 6; i++ {
+		smp1 = append(smp1, 0, 0, 0, 1, byte(2+i))
+	}
+	type form struct {
+		name string
+		coq  string // "" = oracle only
+		tlvs []otr3.VerifTLV
+	}
+	disc := otr3.VerifTLV{Type: 1, Length: 0, Value: nil}
+	forms := []form{
+		{"abort", "[TDisconnected; TSmp 6 {| sp_question := None; sp_vals := [] |}]", []otr3.VerifTLV{disc, {Type: 6, Length: 0, Value: nil}}},
+		{"extra-key", "[TDisconnected; TExtraKey 1 []]", []otr3.VerifTLV{disc, {Type: 8, Length: 4, Value: []byte{0, 0, 0, 1}}}},
+		{"smp1", "", []otr3.VerifTLV{disc, {Type: 2, Length: uint16(len(smp1)), Value: smp1}}},
+		{"smp1q", "", []otr3.VerifTLV{disc, {Type: 7, Length: uint16(len(smp1) + 2), Value: append([]byte{'q', 0}, smp1...)}}},
+		{"smp2-3-4", "", []otr3.VerifTLV{disc, {Type: 3, Length: uint16(len(smp1)), Value: smp1}, {Type: 4, Length: uint16(len(smp1)), Value: smp1}, {Type: 5, Length: uint16(len(smp1)), Value: smp1}}},
+	}
+	sec := []byte("same secret")
+	for _, pol := range []int{polV3, polV2} {
+		for _, f := range forms {
+			for inRun := 0; inRun < 2; inRun++ {
+				pols := []int{pol, pol}
+				s := newSys(pols, c.R.U64())
+				if !s.Handshake(1, 2) {
+					continue
+				}
+				trig := fmt.Sprintf("v%d,behind-disconnect=%s,smp-in-progress=%d", versionOf(pol), f.name, inRun)
+				if inRun == 1 {
+					s.StartSMP(2, "", sec)
+					s.dropFrom(2, s.ps[2].pending)
+				}
+				f := f
+				op := ""
+				if f.coq != "" {
+					op = fmt.Sprintf("OSendTLVs 1 %d %s", s.now, f.coq)
+				}
+				s.record(1, op, fmt.Sprintf("SendTLVs(1, disconnect + %s)", f.name),
+					func(p *Party) ([]byte, []otr3.ValidMessage, error) {
+						o, e := otr3.VerifSendTLVs(p.c, f.tlvs)
+						return nil, o, e
+					})
+				s.Pump(1, 2, 6)
+				c.Count("tlvs-behind-disconnect:" + f.name)
+				c.Rep.Evaluations++
+				if s.panicked {
+					c.Violate("panic", "tlvs-behind-disconnect:"+trig, "panic on a data message that carries records behind the disconnect record", s.trace)
+					continue
+				}
+				if s.ps[2].c.IsEncrypted() {
+					c.Violate("disconnect-ignored", trig, "the receiver of a disconnect record is still encrypted", s.trace)
+				}
+				if f.coq != "" {
+					c.AddScenario(s, pols)
 				}
 			}
 		}
